@@ -382,8 +382,13 @@ fn cap_json(cap: Option<usize>) -> u64 {
 /// long waits that expired so far: after three of them the tree under test is known to be broken (each has already produced
 /// its evidence) and the remaining long waits are cut to one second, so that a check of a broken tree still ends in minutes
 static EXPIRED_LONG_WAITS: AtomicU64 = AtomicU64::new(0);
+/// six long waits have expired: the tree under test is broken beyond doubt and every expiry has left its evidence in the
+/// trace; the drivers skip what is left of their programme so that the check still ends in a few minutes
+fn broken() -> bool {
+    EXPIRED_LONG_WAITS.load(Ordering::Relaxed) >= 6
+}
 fn wait_until(limit: Duration, mut f: impl FnMut() -> bool) -> bool {
-    let long = limit >= Duration::from_secs(5);
+    let long = limit >= Duration::from_secs(2);
     let limit = if long && EXPIRED_LONG_WAITS.load(Ordering::Relaxed) >= 3 { Duration::from_secs(1) } else { limit };
     let t0 = Instant::now();
     loop {
@@ -519,6 +524,9 @@ pub fn stress(a: &Args) {
     let mut blocked_drop_us: Vec<u64> = vec![];
     let mut stop_all = false;
     for run in 0..runs {
+        if broken() {
+            break;
+        }
         let cap: Option<usize> = [None, Some(0), Some(1), Some(2), Some(3), Some(8), Some(1), Some(2), Some(5), Some(6), Some(7)][rng.random_range(0..11)];
         let eh = rng.random_bool(0.6);
         let nprod = rng.random_range(1..=4u64);
@@ -762,6 +770,9 @@ pub fn stress(a: &Args) {
     // slot, and 2-3 producers on clones leave the hook point at the top of submit at the same instant
     let align_rounds = a.num("align", 120);
     for r in 0..align_rounds {
+        if broken() {
+            break;
+        }
         let cap = 1 + (r % 3) as usize;
         let nthr = 2 + (r % 2);
         tr().ev(json!({"ev":"reset","cap":cap as u64,"eh":false,"run":2000 + r,"aligned":true}));
@@ -811,6 +822,9 @@ pub fn stress(a: &Args) {
     // ---- first emits on a fresh sink (C08): 3 pinned producers, each on its own clone of a sink nobody has used yet, enter their
     // very first emit at the same instant (whatever the sink sets up lazily is set up under contention), then emit a few more
     for r in 0..a.num("fresh-rounds", 40) {
+        if broken() {
+            break;
+        }
         let cap: Option<usize> = if r % 2 == 0 { None } else { Some(16) };
         tr().ev(json!({"ev":"reset","cap":cap_json(cap),"eh":false,"run":2500 + r,"fresh":true}));
         EXITED.store(0, Ordering::SeqCst);
@@ -864,6 +878,9 @@ pub fn stress(a: &Args) {
     // ---- stalled increment (C15 "never wraps around", C20): a producer rests between try_send and incr_submitted while the
     // worker delivers the metric, so drained exceeds submitted for two milliseconds; a sampler reads the counters meanwhile
     for r in 0..a.num("stall-rounds", 6) {
+        if broken() {
+            break;
+        }
         tr().ev(json!({"ev":"reset","cap":cap_json(None),"eh":false,"run":3000 + r,"stalled":true}));
         EXITED.store(0, Ordering::SeqCst);
         let base_tasks = tasks();
@@ -901,6 +918,9 @@ pub fn stress(a: &Args) {
     install_light();
     let bulk_runs = a.num("bulk", 3);
     for b in 0..bulk_runs {
+        if broken() {
+            break;
+        }
         let cap: Option<usize> = if b % 2 == 0 { None } else { Some(64) };
         let aligned = b % 3 == 2;
         let (nprod, per) = if aligned { (4u64, 4_000u64) } else { (8u64, 20_000u64) };
@@ -946,7 +966,7 @@ pub fn stress(a: &Args) {
         set_align(0, 2);
         total_emits += nprod * per;
         wait_until(Duration::from_secs(10), || handed.load(Ordering::SeqCst) >= okn && stat(|| sink.drained()) >= okn);
-        tr().ev(json!({"ev":"bulk","okn":okn,"deln":handed.load(Ordering::SeqCst)}));
+        tr().ev(json!({"ev":"bulk","okn":okn,"deln":handed.load(Ordering::SeqCst),"refn":(nprod * per).saturating_sub(okn)}));
         sample(&sink, "quiesce");
         drop(keep);
         drop(sink);
